@@ -412,7 +412,7 @@ func genExportCase(t *rapid.T) ExportCase {
 
 func TestC18_ExportImport(t *testing.T) {
 	RunProp(t, Prop[ExportCase]{
-		ID: "C18", Name: "export-import", Quick: 320, Thor: 10_000,
+		ID: "C18", Name: "export-import", Quick: 640, Thor: 10_000,
 		Gen: genExportCase, Run: runExportCase,
 		Rule: "a history in the locking world (validators pending/active/downgraded/tombstoned/inactive incl. zero-power ones, pending and matured unlocks, claims queued), the relayer world (pending, on-boarding and off-boarding voters, consumed sequences) or the withdrawal world (pending/canceling/processing/paid/cancelled withdrawals, processing batches with fee-bumped candidates, refund/paid queues, voted hashes not yet handed over) is stopped at a generated block; ExportAppStateAndValidators E1; a fresh application is initialised with E1's state, validators, height and the consensus parameters (must succeed; the SDK compares requested and returned validators); the module manager's export of the just-initialised state must equal E1 module by module (null/[]/absent normalised); every module query over every key named in E1 answers identically; and, reported as a separate clause, the new chain must run 3 blocks from the exported height with the empty last commit CometBFT supplies and with validator updates acceptable to a CometBFT set seeded from InitChain; non-trivial = the exported state shows >= 3 of the listed interesting features; evaluations count history blocks",
 	})
